@@ -283,7 +283,7 @@ func runC12(f *hx.Flags, w *world) int {
 	}
 	prepareCorpus(w, f.Corpus)
 	r.RunCorpus()
-	nBatches, batch := 2, 12
+	nBatches, batch := 2, 9
 	if g.thorough {
 		nBatches, batch = 15, 34
 	}
